@@ -334,6 +334,9 @@ impl Prop for C15 {
       _ => panic!("unknown task {}", t),
     }
   }
+  fn cold_subs(&self) -> Vec<(&'static str, i64, i64, fn(i64) -> Vec<i64>)> {
+    vec![("day", 366, crate::model::NDAYS as i64 - 366, |x| vec![x])]
+  }
   fn eval(&self, env: &Env, out: &mut Out, sub: &str, case: &Case) {
     match sub {
       "day" => self.eval_day(env, out, case),
